@@ -215,6 +215,12 @@ def axioms():
     global _AXIOMS
     if _AXIOMS is None:
         _AXIOMS = smt.seq_axioms()
+        # Decimal(str(x)) for a float x is the decimal that repr(x) denotes (uninterpreted `Intended`); trusted facts about it:
+        # it has the sign of x and fixes zero (repr never changes the sign of a float)
+        from .symexec import Intended
+        r = z3.Real("r!int")
+        _AXIOMS = list(_AXIOMS) + [z3.ForAll([r], z3.And((r >= 0) == (Intended(r) >= 0), (r > 0) == (Intended(r) > 0)),
+                                             patterns=[Intended(r)], qid="intended_sign")]
     return _AXIOMS
 
 
